@@ -190,8 +190,11 @@ def apply_contract(I, c, qn, args, kwargs, fr, site, finfo=None):
         for case in cases:
             g = I.truthy(I.E.eval_spec_in(I, case["when"], sf))
             vals = {"when": g, "post": {}, "result": None}
-            sure = (g is True) or (g is not False and st.proves(g))
             if g is False:
+                continue
+            # case analysis at the call site: provable guard -> taken; undetermined -> the path forks
+            sure = (g is True) or st.decide(g)
+            if not sure:
                 continue
             for lv, ex in (case.get("post") or {}).items():
                 vals["post"][lv] = I.E.eval_spec_in(I, ex, sf)
